@@ -28,6 +28,7 @@ def impl_obs(rows, nf, unaligned=False):
     import bblean
     import bblean.similarity as S
     from bblean import _py_similarity as P
+    from bblean.utils import min_safe_uint
     A = np.array(rows, dtype=np.uint8).reshape(len(rows), nf)
     X = bblean.pack_fingerprints(A)
     if unaligned:
@@ -45,11 +46,19 @@ def impl_obs(rows, nf, unaligned=False):
         "sims_vec": [float(v) for v in S._jt_sim_arr_vec_packed(X, X[0])],
         "matrix": [[float(v) for v in r] for r in S.jt_sim_matrix_packed(X)],
         "cvals": [int(v) for v in S.centroid_from_sum(ls, n, pack=False)],
+        "cvals_narrow": [int(v) for v in S.centroid_from_sum(
+            A.sum(axis=0, dtype=min_safe_uint(n)), n, pack=False)],
+        "cvals_public": [int(v) for v in S.centroid(A, input_is_packed=False, pack=False)],
+        "cvals_public_packed": [int(v) for v in np.unpackbits(
+            S.centroid(X, input_is_packed=True, n_features=nf, pack=True), count=nf)],
         "cpacked": [int(v) for v in S.centroid_from_sum(ls, n, pack=True)],
         "dissim": (int(f1), int(f2), [float(v) for v in s1], [float(v) for v in s2]),
         "compl": [float(v) for v in compl],
         "medoid": int(med),
     }
+    # every route to the centroid agrees on the implementation itself
+    if not (o["cvals"] == o["cvals_narrow"] == o["cvals_public"] == o["cvals_public_packed"]):
+        o["cvals"] = [-1] + o["cvals_narrow"]      # surfaces as a centroid disagreement
     # symmetric / pairwise forms agree with the matrix on the implementation itself
     for i in range(n):
         for j in range(n):
@@ -84,6 +93,19 @@ def gen_cases(seed, tier):
                 combos = rng.sample(combos, 700)
             for c in combos:
                 cases.append(([list(r) for r in c], nf, False))
+    # tall matrices: row counts around the uint8 boundaries of the column sums
+    for nr in ([128, 255] if tier == "quick" else [127, 128, 129, 200, 254, 255, 256, 257, 300]):
+        nf = rng.choice([3, 5, 6])
+        col_dens = [rng.choice([0.0, 0.49, 0.5, 0.51, 0.9, 1.0]) for _ in range(nf)]
+        rows = [[1 if rng.random() < d else 0 for d in col_dens] for _ in range(nr)]
+        for j, d in enumerate(col_dens):            # exact ties and unanimous columns
+            if d == 0.5:
+                for i in range(nr):
+                    rows[i][j] = 1 if i < (nr + 1) // 2 else 0
+            if d == 1.0:
+                for i in range(nr):
+                    rows[i][j] = 1
+        cases.append((rows, nf, False))
     n_rand = 250 if tier == "quick" else 4000
     widths = [1, 2, 3, 5, 7, 8, 9, 15, 16, 17, 31, 33, 63, 64, 65, 100, 127, 128, 129, 192,
               200, 256, 511, 512, 513, 1024, 2048, 4096]
